@@ -186,6 +186,14 @@ def bounded_sequences(ctx, b):
             got = detect_format(s)
             return got is reference_detect(s), {"string": s[:40], "got": repr(got)}
         b.guard(("digits", s[:20], len(s)), dig, sample=s[:40])
+    # strings made of characters that strip / splitlines / isspace treat specially (a byte order mark, line and
+    # paragraph separators, control characters): detection never raises
+    for ch in ["\ufeff", "\u2028", "\u2029", "\x85", "\x0b", "\x0c", "\x1c", "\x1d", "\x1e", "\x00", "\r", "\t", " ", "\u00a0", "\u200b", "\u3000"]:
+        for s in [ch, ch + ch, ch + "\n", "\n" + ch, ch + "WEBVTT", ch + "1\n00:00:01,000 --> 00:00:02,000\nx\n", ch + "{1}{2}x", "{1}{2}" + ch]:
+            def odd(s=s):
+                got = detect_format(s)
+                return got is reference_detect(s), {"string": s[:40], "got": repr(got)}
+            b.guard(("odd", s), odd, sample=repr(s[:40]))
     firsts = [docs[0] for docs in samples.all_docs().values()] + ["no format at all"]
     seconds = ["1\n-->WEBVTT", "WEBVTT\n\n1\n00:01.000 --> 00:02.000\nx", "1\n00:00:01,000 --> 00:00:02,000\nsee WEBVTT\n",
                "Scenarist_SCC V1.0\n\n00:00:01:00\t9420 </tt>", "{1}{2}</tt>", "{1}{2}<sami>", "<sami>\n1\n-->", "{1}{2}WEBVTT", "{1}{2}x\n1\n-->",
